@@ -26,7 +26,11 @@ type Hier struct {
 	CS        [][NS]int // 0 = not declared, 1 = declared, 2 = declared and chains to parent::
 	IM        [][NM]bool
 	Arity     [][NM]int // per type node (classes first, then interfaces) and method name
-	sub       [][]bool  // reflexive-transitive subtype relation over type nodes
+	// ArB: parameter counts used by the `like` script only. Starts as Arity and then lets
+	// overrides / implementations change the count (more or fewer parameters) — origami does not
+	// enforce signature compatibility, and `like` must follow the most-derived definition.
+	ArB [][NM]int
+	sub [][]bool // reflexive-transitive subtype relation over type nodes
 }
 
 func (h *Hier) N() int             { return h.NC + h.NI }
@@ -115,6 +119,18 @@ func (h *Hier) sprovides(x, j int) int {
 		}
 	}
 	return -1
+}
+
+// topProvider: the root-most class on x's chain (x included) that has static method j
+// available, i.e. the highest class on which the helper sstat_<class>_sj exists.
+func (h *Hier) topProvider(x, j int) int {
+	top := x
+	for c := x; c >= 0; c = h.Parent[c] {
+		if h.sprovides(c, j) >= 0 {
+			top = c
+		}
+	}
+	return top
 }
 
 // marker is what the body of x's own definition of mj returns.
@@ -227,6 +243,26 @@ func (h *Hier) finish(r *rand.Rand) {
 			h.Arity[a][j] = ar[k]
 		}
 	}
+	h.ArB = make([][NM]int, n)
+	copy(h.ArB, h.Arity)
+	for c := 0; c < h.NC; c++ {
+		for j := 0; j < NM; j++ {
+			if h.CM[c][j] == 0 {
+				continue
+			}
+			// only declarations that are related to another declaration of the same name can be
+			// "arity-changing"; unrelated ones already have independent counts
+			related := false
+			for t := 0; t < n; t++ {
+				if t != c && h.declares(t, j) && (h.sub[c][t] || h.sub[t][c]) {
+					related = true
+				}
+			}
+			if related && r.Float64() < 0.35 {
+				h.ArB[c][j] = (h.Arity[c][j] + 1 + r.Intn(2)) % 3 // always a different count
+			}
+		}
+	}
 }
 
 func (h *Hier) declares(t, j int) bool {
@@ -249,7 +285,7 @@ func (h *Hier) structKey() string {
 }
 
 func (h *Hier) fullKey() string {
-	return fmt.Sprintf("%s|%v|%v|%v|%v|%v|%v", h.structKey(), h.Abstract, h.ThrowRoot, h.CM, h.CS, h.IM, h.Arity)
+	return fmt.Sprintf("%s|%v|%v|%v|%v|%v|%v|%v", h.structKey(), h.Abstract, h.ThrowRoot, h.CM, h.CS, h.IM, h.Arity, h.ArB)
 }
 
 func (h *Hier) describe() string {
@@ -296,6 +332,9 @@ func (h *Hier) describe() string {
 		for j := 0; j < NM; j++ {
 			if h.CM[c][j] != 0 {
 				fmt.Fprintf(&sb, " m%d/%d", j, h.Arity[c][j])
+				if h.ArB != nil && h.ArB[c][j] != h.Arity[c][j] {
+					fmt.Fprintf(&sb, "(like-script:%d)", h.ArB[c][j])
+				}
 				if h.CM[c][j] == 2 {
 					sb.WriteString("^")
 				}
